@@ -355,6 +355,115 @@ theorem clean_exits_0 (pr sp au col : Option Err) (first : Nat)
     exitCode (conductErr pr sp au col first false none) = 0 := by
   simp [exitCode, conductErr, finish, hs, combine]
 
+/-! ## from reports to the verdict: what a stream of audit reports makes of the play -/
+
+theorem collectReport_tally_other (t : Table) (b : Bool) (s : ColSt) (r : Report) (n : String)
+    (h : n ≠ r.auditor) : (collectReport t b s r).1.tally n = s.tally n := by
+  simp [collectReport, h]
+
+theorem bump_bad_mono (ty : Tally) (code : Nat) : ty.bad ≤ (bump ty code).bad := by
+  simp only [bump]; split
+  · simp
+  · split <;> simp
+
+theorem bump_good_mono (ty : Tally) (code : Nat) : ty.good ≤ (bump ty code).good := by
+  simp only [bump]; split
+  · simp
+  · split <;> simp
+
+theorem bump_keeps_data (ty : Tally) (code : Nat) (h : ty.hasData = true) : (bump ty code).hasData = true :=
+  bump_hasData ty code
+
+/-- tallies only grow, and an auditor that reported once keeps `hasData` -/
+theorem collectAll_mono (t : Table) (s : ColSt) (rs : List Report) (n : String) :
+    (s.tally n).bad ≤ ((collectAll t false s rs).1.tally n).bad ∧
+    (s.tally n).good ≤ ((collectAll t false s rs).1.tally n).good ∧
+    ((s.tally n).hasData = true → ((collectAll t false s rs).1.tally n).hasData = true) ∧
+    s.errors ≤ (collectAll t false s rs).1.errors := by
+  induction rs generalizing s with
+  | nil => simp [collectAll]
+  | cons r rs ih =>
+    simp only [collectAll]
+    have hstop : (collectReport t false s r).2 = false := by
+      simp only [collectReport, stopNow]; split <;> simp
+    simp only [hstop, Bool.false_eq_true, if_false]
+    obtain ⟨i1, i2, i3, i4⟩ := ih (collectReport t false s r).1
+    have step : (s.tally n).bad ≤ ((collectReport t false s r).1.tally n).bad ∧
+        (s.tally n).good ≤ ((collectReport t false s r).1.tally n).good ∧
+        ((s.tally n).hasData = true → ((collectReport t false s r).1.tally n).hasData = true) ∧
+        s.errors ≤ (collectReport t false s r).1.errors := by
+      simp only [collectReport]
+      refine ⟨?_, ?_, ?_, ?_⟩
+      · by_cases hn : n = r.auditor
+        · subst hn; simpa using bump_bad_mono _ _
+        · simp [hn]
+      · by_cases hn : n = r.auditor
+        · subst hn; simpa using bump_good_mono _ _
+        · simp [hn]
+      · by_cases hn : n = r.auditor
+        · subst hn; intro _; simpa using bump_hasData _ _
+        · simp [hn]
+      · split <;> omega
+    exact ⟨Nat.le_trans step.1 i1, Nat.le_trans step.2.1 i2, fun h => i3 (step.2.2.1 h), Nat.le_trans step.2.2.2 i4⟩
+
+/-- **one disappointment report is enough**: whatever else is reported before or after it, by
+anybody, a disappointment of an auditor interpreted with `foul upon … disappointment` (the
+default) fouls the play. -/
+theorem bad_report_fouls (t : Table) (pre post : List Report) (a : String) (i : Interp)
+    (hm : (a, i) ∈ t) (hi : i.onBad = .uponNonZero) :
+    fouls t (collectAll t false {} (pre ++ ⟨a, 2⟩ :: post)).1.tally
+            (collectAll t false {} (pre ++ ⟨a, 2⟩ :: post)).1.errors = true := by
+  have split_run : ∀ (s : ColSt) (l1 l2 : List Report),
+      (collectAll t false s (l1 ++ l2)).1 = (collectAll t false (collectAll t false s l1).1 l2).1 := by
+    intro s l1 l2
+    induction l1 generalizing s with
+    | nil => simp [collectAll]
+    | cons r l1 ih =>
+      have hstop : (collectReport t false s r).2 = false := by
+        simp only [collectReport, stopNow]; split <;> simp
+      simp only [List.cons_append, collectAll, hstop, Bool.false_eq_true, if_false]
+      exact ih _
+  rw [split_run]
+  generalize (collectAll t false {} pre).1 = s0
+  simp only [collectAll]
+  have hstop : (collectReport t false s0 ⟨a, 2⟩).2 = false := by
+    simp only [collectReport, stopNow]; split <;> simp
+  simp only [hstop, Bool.false_eq_true, if_false]
+  have h1 : 1 ≤ ((collectReport t false s0 ⟨a, 2⟩).1.tally a).bad := by
+    simp [collectReport, bump]
+  have hd : ((collectReport t false s0 ⟨a, 2⟩).1.tally a).hasData = true := by
+    simp [collectReport, bump]
+  obtain ⟨m1, _, m3, _⟩ := collectAll_mono t (collectReport t false s0 ⟨a, 2⟩).1 post a
+  rw [verdict_iff]
+  right
+  exact ⟨(a, i), hm, m3 hd, Or.inl ⟨hi, Nat.lt_of_lt_of_le (Nat.lt_of_lt_of_le Nat.zero_lt_one h1) m1⟩⟩
+
+/-- and one evaluation error is enough too -/
+theorem error_report_fouls (t : Table) (pre post : List Report) (a : String) :
+    fouls t (collectAll t false {} (pre ++ ⟨a, 1⟩ :: post)).1.tally
+            (collectAll t false {} (pre ++ ⟨a, 1⟩ :: post)).1.errors = true := by
+  have split_run : ∀ (s : ColSt) (l1 l2 : List Report),
+      (collectAll t false s (l1 ++ l2)).1 = (collectAll t false (collectAll t false s l1).1 l2).1 := by
+    intro s l1 l2
+    induction l1 generalizing s with
+    | nil => simp [collectAll]
+    | cons r l1 ih =>
+      have hstop : (collectReport t false s r).2 = false := by
+        simp only [collectReport, stopNow]; split <;> simp
+      simp only [List.cons_append, collectAll, hstop, Bool.false_eq_true, if_false]
+      exact ih _
+  rw [split_run]
+  generalize (collectAll t false {} pre).1 = s0
+  simp only [collectAll]
+  have hstop : (collectReport t false s0 ⟨a, 1⟩).2 = false := by
+    simp only [collectReport, stopNow]; split <;> simp
+  simp only [hstop, Bool.false_eq_true, if_false]
+  have h1 : 1 ≤ (collectReport t false s0 ⟨a, 1⟩).1.errors := by simp [collectReport]
+  obtain ⟨_, _, _, m4⟩ := collectAll_mono t (collectReport t false s0 ⟨a, 1⟩).1 post a
+  rw [verdict_iff]
+  left
+  omega
+
 /-! ## the shutdown stages under every schedule -/
 
 section stages
